@@ -19,6 +19,7 @@
                                  of kind tkind (5: text of length 5, 6: annotation with offset, length 2,
                                  others: no text); mode 0 JSON, 1 annotate_from_file, 2 CSV
      (12 ..)                     CBOR length headers rewritten: measured only
+     (15 cfg request)            the request under Config variant cfg: same prediction
      (13 mode (keys data) (keys data))  one data set defined twice (sub-stores, with_file, merge_json_str,
                                  merge_json_file, two set objects in one merged file); data = ((id key) ..);
                                  result (0 ((id key) .. by id) (keys ascending))
@@ -200,7 +201,7 @@ Definition run_merge (x : sx) : sx :=
   let skeys := ds_keys a ++ filter (fun k => negb (has_key k (ds_keys a))) (ds_keys b) in
   L [triple (L [A 0]) (L [A 0]) 0; triple (def_sx (ds_keys m) (ds_data m)) (def_sx skeys sdata) 0].
 
-Definition run_C19 (x : sx) : sx :=
+Definition run_inner (x : sx) : sx :=
   match sx_nat (sx_nth 0 x) with
   | 0%nat => L [run_string (sx_nat (sx_nth 1 x)) (str_of (sx_nth 2 x))]
   | 1%nat => run_visit (sx_bool (sx_nth 1 x)) (sx_N (sx_nth 2 x))
@@ -224,4 +225,14 @@ Definition run_C19 (x : sx) : sx :=
   | 9%nat => run_visit (sx_bool (sx_nth 1 x)) 1
                        (map (fun l => map velem_of (sx_list l)) (sx_list (sx_nth 2 x)))
   | _ => L [triple (L [A 0]) (L [A 0]) 0]
+  end.
+
+(* (15 cfg request): the same request loaded under another Config (milestone_interval 0/1/2,
+   shrink_to_fit off, generate_ids on, the reverse indices off, use_include off, all of these).
+   The configuration does not change what is accepted nor where items are placed: the
+   prediction is that of the inner request. *)
+Definition run_C19 (x : sx) : sx :=
+  match sx_nat (sx_nth 0 x) with
+  | 15%nat => run_inner (sx_nth 2 x)
+  | _ => run_inner x
   end.
